@@ -77,6 +77,24 @@ def _nested_swv(prog):
     return False
 
 
+def _eye_offset_with_short_rows(prog):
+    """a da.eye step with an off-diagonal offset whose row chunk is not the chunk size the diagonal test assumes: Eye._layer
+    places the k-diagonal with the FIRST ROW chunk as the common block size of both axes, which is wrong when the rows fit in
+    one chunk shorter than the column chunks (N < chunk size <= M): the listed finding `eye:offset:first-row-chunk-shorter`"""
+    from dask_array._core_utils import normalize_chunks
+
+    for s in prog:
+        if s.get("op") == "creation" and s.get("fn") == "eye" and s.get("k"):
+            try:
+                n, m = s["shape"]
+                v, h = normalize_chunks(s["chunks"], shape=(n, m), dtype=np.dtype(s.get("dtype") or float))
+            except Exception:  # noqa: BLE001
+                continue
+            if v and h and v[0] != h[0]:
+                return True
+    return False
+
+
 def _zero_width_on_broadcast_axis(msg):
     import re
 
@@ -105,6 +123,8 @@ def classify(prog, outcome):
         return "minmax-zero-size"
     if kind == "exc" and _minmax_on_empty(prog) and _minmax_on_empty_misbehaves(prog):
         return "minmax-zero-size"
+    if kind == "value" and _eye_offset_with_short_rows(prog):
+        return "eye:offset:first-row-chunk-shorter"
     if kind == "exc":
         return "raises:" + type(info).__name__
     return "value-mismatch"
